@@ -2,6 +2,7 @@ package sortref
 
 import (
 	"net/http"
+	"net/url"
 	"path"
 	"strconv"
 	"strings"
@@ -59,6 +60,11 @@ func (k Keys) Less(i, j int) bool {
 
 // KeyParts construct a SplitKey with all its /-separated segments decomposed. It is sortable.
 func KeyParts(key string) SplitKey {
+	// keys may come from the string representation of a $ref, in which reserved characters are URL-escaped
+	if unescaped, err := url.PathUnescape(key); err == nil {
+		key = unescaped
+	}
+
 	var res []string
 	for _, part := range strings.Split(key[1:], "/") {
 		if part != "" {
